@@ -696,7 +696,7 @@ sub_accept!(c17_sub_fixed1_b16_n4_po2, 16, 4, 16, 7, [(0, 0), (1, 9), (2, 0), (4
 // @oracle both parsers reject (or both accept)
 sub_accept!(c17_sub_fixed0_b16_n2_po3, 16, 2, 24, 7, [(0, 0), (1, 8), (2, 0), (3, 0), (4, 3), (5, 15), (6, 0), (7, 15), (8, 0), (9, 15), (10, 0), (11, 15), (12, 0), (13, 15), (14, 0), (15, 15), (16, 0), (17, 15), (18, 0), (19, 15), (20, 0)]);
 
-// @harness prop=C17 tier=thorough expect=pass timeout=1800
+// @harness prop=C17 tier=quick expect=pass timeout=1800
 // @units stream::read_subframe stream::Subframe::decode decode::read_subframe
 // @bound LPC order 1, 16 bps, block 3, precision 3 bits, shift symbolic (incl. negative), method 0, partition order 0, Rice parameter 1
 sub_accept!(c17_sub_lpc1_b16_n3_p3_r1, 16, 3, 14, 7, [(0, 0), (1, 32), (2, 0), (4, 2), (7, 0), (8, 0), (9, 1)]);
@@ -749,5 +749,86 @@ fn c05_header_streaminfo_consistency() {
     kani::cover!(h.is_ok());
     kani::cover!(matches!(h, Err(Error::ChannelsMismatch)));
     kani::cover!(matches!(h, Err(Error::BlockSizeMismatch)));
+    std::mem::forget(h);
+}
+
+// @harness prop=C02 tier=quick expect=pass timeout=600
+// @units stream::FrameNumber::to_writer
+// @bound every frame / sample number 0..2^36-1 (all seven coding lengths) and the first illegal value 2^36
+// @oracle an independent reader of the RFC 9639 coded number (lead byte 0xxxxxxx / 110xxxxx / ... / 11111110, continuation bytes 10xxxxxx) recovers the number and consumes every field; the coding is the shortest one that holds the value; 2^36 and above are refused
+#[kani::proof]
+#[kani::unwind(9)]
+fn c02_coded_number_writer_all_lengths() {
+    let n: u64 = kani::any();
+    kani::assume(n <= (1 << 36));
+    let mut q = TokFifo::<10>::new();
+    let w = FrameNumber(n).to_writer(&mut q);
+    if n == (1 << 36) {
+        assert!(w.is_err());
+        std::mem::forget(w);
+        return;
+    }
+    assert!(w.is_ok() && !q.failed);
+    std::mem::forget(w);
+    let mut r = q.rewound();
+    let ones = r.read_unary::<0>().unwrap();
+    let v: u64 = match ones {
+        0 => r.read_var::<u64>(7).unwrap(),
+        2..=7 => {
+            let mut v: u64 = if ones < 7 { r.read_var::<u64>(7 - ones).unwrap() } else { 0 };
+            let mut k = 1;
+            while k < ones {
+                let byte = r.read_var::<u64>(8).unwrap();
+                assert!(byte >> 6 == 0b10);
+                v = (v << 6) | (byte & 0x3F);
+                k += 1;
+            }
+            v
+        }
+        _ => {
+            assert!(false);
+            0
+        }
+    };
+    assert!(r.drained());
+    assert!(v == n);
+    // shortest coding: 7, 11, 16, 21, 26, 31, 36 payload bits
+    let bits: u32 = match ones {
+        0 => 7,
+        2 => 11,
+        3 => 16,
+        4 => 21,
+        5 => 26,
+        6 => 31,
+        _ => 36,
+    };
+    let shorter: u32 = match ones {
+        0 => 0,
+        2 => 7,
+        3 => 11,
+        4 => 16,
+        5 => 21,
+        6 => 26,
+        _ => 31,
+    };
+    assert!(n < (1u64 << bits));
+    assert!(shorter == 0 || n >= (1u64 << shorter));
+    assert!(q.wpos % 8 == 0);
+}
+
+// @harness prop=C05,C04 tier=quick expect=pass timeout=600
+// @units stream::FrameHeader::parse
+// @bound any 15-bit value other than the sync code in the sync position, every other field arbitrary
+// @oracle Err(InvalidSyncCode) and nothing after the sync field is consumed
+#[kani::proof]
+#[kani::unwind(4)]
+fn c05_header_bad_sync_rejected() {
+    let vals: [u64; 6] = kani::any();
+    kani::assume(vals[0] & 0x7FFF != 0b111_1111_1111_1100);
+    let mut src = Script::new(&vals);
+    src.trip_at = 1;
+    let mut r = ModelBits::new(src, 15);
+    let h: Result<FrameHeader, Error> = r.parse();
+    assert!(matches!(h, Err(Error::InvalidSyncCode)));
     std::mem::forget(h);
 }
